@@ -150,6 +150,15 @@ class G(object):
         return self.el('extra', [], self.el('technique', [('profile', 'OTHER')],
                                             self.el('param', [('name', 'k'), ('type', 'float')], self.num())))
 
+    def asset_child(self, p=0.08):
+        """most COLLADA elements may start with an <asset> of their own; a loader must look past it"""
+        if self.chance(p):
+            return self.el('asset', [], self.el('revision', [], esc(self.word())))
+        return ''
+
+    def pad(self, tok):
+        return tok if not self.odd_ws else self.rng.choice(['', ' ', '\n']) + tok + self.rng.choice(['', ' ', '\t'])
+
     def maybe_extra(self, p=0.15):
         return self.extra() if self.chance(p) else ''
 
@@ -342,7 +351,7 @@ def render_geometry(g, geom):
     parts.append(g.note())
     parts.append(vxml)
     for p in geom['prims']:
-        ins = ''.join(g.el('input', g.rng.sample([('offset', str(o)), ('semantic', sem), ('source', '#' + ref),
+        ins = ''.join(g.el('input', g.rng.sample([('offset', g.int_tok(o).lstrip('+')), ('semantic', sem), ('source', '#' + ref),
                                                   ('set', st)], 4))
                       for o, sem, ref, st in p['inputs'])
         body = ins
@@ -358,7 +367,7 @@ def render_geometry(g, geom):
     if geom['double_sided'] is not None:
         gextra = g.el('extra', [], g.el('technique', [('profile', 'MAYA')],
                                         g.el('double_sided', [], geom['double_sided'])))
-    return g.el('geometry', [('id', geom['id']), ('name', geom['name'])], g.el('mesh', [], ''.join(parts)) + gextra)
+    return g.el('geometry', [('id', geom['id']), ('name', geom['name'])], g.asset_child() + g.el('mesh', [], ''.join(parts)) + gextra)
 
 
 # --------------------------------------------------------------------------- lights, cameras, images, effects
@@ -382,7 +391,9 @@ def render_light(g, L):
     for nme, tok in L['params']:
         body += g.el(nme, [], tok if not g.odd_ws else g.rng.choice(['', ' ']) + tok + g.rng.choice(['', '\n']))
     return g.el('light', [('id', L['id']), ('name', g.word() if g.chance(0.5) else None)],
-                g.el('technique_common', [], g.el(L['kind'], [], body)) + g.maybe_extra())
+                g.asset_child() + g.el('technique_common', [], g.el(L['kind'], [], body)) +
+                (g.el('technique', [('profile', 'OTHER')], g.el('param', [('name', 'intensity')], g.num())) if g.chance(0.1) else '') +
+                g.maybe_extra())
 
 
 def gen_camera(g):
@@ -403,7 +414,7 @@ def render_camera(g, C):
         g.rng.shuffle(parts)
     body = ''.join(parts)
     return g.el('camera', [('id', C['id']), ('name', g.word() if g.chance(0.5) else None)],
-                g.el('optics', [], g.el('technique_common', [], g.el(C['kind'], [], body))) + g.maybe_extra())
+                g.asset_child() + g.el('optics', [], g.el('technique_common', [], g.el(C['kind'], [], body))) + g.maybe_extra())
 
 
 def gen_image(g):
@@ -412,7 +423,7 @@ def gen_image(g):
 
 def render_image(g, I):
     return g.el('image', [('id', I['id']), ('name', g.word() if g.chance(0.4) else None)],
-                g.el('init_from', [], esc(I['path'])))
+                g.asset_child() + g.el('init_from', [], esc(I['path'])))
 
 
 COLOR_PROPS = ['emission', 'ambient', 'diffuse', 'specular', 'reflective', 'transparent']
@@ -491,7 +502,7 @@ def render_effect(g, E):
         if val[0] == 'color':
             inner = g.el('color', [], g.join(val[1]))
         elif val[0] == 'float':
-            inner = g.el('float', [], val[1])
+            inner = g.el('float', [], g.pad(val[1]))
         elif val[0] == 'texture':
             inner = g.el('texture', [('texture', val[1]), ('texcoord', val[2])])
         else:
@@ -503,9 +514,9 @@ def render_effect(g, E):
                                        g.el('bump', [], g.el('texture', [('texture', E['bump'][0]), ('texcoord', E['bump'][1])]))))
     body += g.el('technique', [('sid', 'common')], tech)
     if E['double_sided'] is not None:
-        body += g.el('extra', [], g.el('technique', [('profile', 'GOOGLEEARTH')], g.el('double_sided', [], E['double_sided'])))
+        body += g.el('extra', [], g.el('technique', [('profile', 'GOOGLEEARTH')], g.el('double_sided', [], g.pad(E['double_sided']))))
     return g.el('effect', [('id', E['id']), ('name', g.word() if g.chance(0.4) else None)],
-                g.el('profile_COMMON', [], body))
+                g.asset_child() + g.el('profile_COMMON', [], g.asset_child(0.05) + body))
 
 
 # --------------------------------------------------------------------------- controllers, animations
@@ -552,7 +563,7 @@ def render_skin(g, S):
     g.rng.shuffle(win)
     body += g.el('vertex_weights', [('count', str(len(S['vcount'])))],
                  ''.join(win) + g.el('vcount', [], g.join(str(x) for x in S['vcount'])) + g.el('v', [], g.join(str(x) for x in S['v'])))
-    return g.el('controller', [('id', S['id'])], g.el('skin', [('source', '#' + S['geometry'])], body) + g.maybe_extra())
+    return g.el('controller', [('id', S['id'])], g.asset_child() + g.el('skin', [('source', '#' + S['geometry'])], body) + g.maybe_extra())
 
 
 def gen_morph(g, geoms):
@@ -599,7 +610,7 @@ def render_animation(g, A):
         body += g.el('channel', [('source', '#' + sid), ('target', 'node1/translate')])
     kids = ''.join(render_animation(g, c) for c in A['children'])
     body = (kids + body) if g.chance(0.3) else (body + kids)
-    return g.el('animation', [('id', A['id']), ('name', A['name'])], body)
+    return g.el('animation', [('id', A['id']), ('name', A['name'])], g.asset_child() + body)
 
 
 # --------------------------------------------------------------------------- nodes and scenes
@@ -832,7 +843,7 @@ def gen_document(rng, size=1, ns=NS_141, **opts):
     lib('library_images', [render_image(g, x) for x in D['images']], 'images')
     lib('library_effects', [render_effect(g, x) for x in D['effects']], 'effects')
     lib('library_materials', [g.el('material', [('id', m['id']), ('name', m['name'])],
-                                   g.el('instance_effect', [('url', '#' + m['effect'])])) for m in D['materials']], 'materials')
+                                   g.asset_child() + g.el('instance_effect', [('url', '#' + m['effect'])])) for m in D['materials']], 'materials')
     lib('library_animations', [render_animation(g, x) for x in D['animations']], 'animations')
     geoms_xml = [render_geometry(g, x) for x in D['geometries']]
     if g.chance(0.12):
@@ -848,7 +859,7 @@ def gen_document(rng, size=1, ns=NS_141, **opts):
     lib('library_cameras', [render_camera(g, x) for x in D['cameras']], 'cameras')
     lib('library_nodes', [render_node(g, x) for x in D['nodes']])
     lib('library_visual_scenes', [g.el('visual_scene', [('id', s['id']), ('name', s['name'])],
-                                       ''.join(render_node(g, n) for n in s['nodes']) + g.maybe_extra(0.1)) for s in D['scenes']], 'scenes')
+                                       g.asset_child() + ''.join(render_node(g, n) for n in s['nodes']) + g.maybe_extra(0.1)) for s in D['scenes']], 'scenes')
     if g.chance(0.5):
         rng.shuffle(libs)      # the order of libraries in the file is free
     # a library written in two parts lists its objects in the order of the parts in the file
@@ -859,7 +870,8 @@ def gen_document(rng, size=1, ns=NS_141, **opts):
     D['split_libraries'] = sorted(split)
     body = (render_asset(g, D['asset']) if D['asset'] is not None else '') + ''.join(t for (t, _k, _p) in libs)
     if D['scene'] is not None:
-        body += g.el('scene', [], g.el('instance_visual_scene', [('url', '#' + D['scene'])]))
+        body += g.el('scene', [], (g.el('instance_physics_scene', [('url', '#nophysics')]) if g.chance(0.2) else '') +
+                     g.el('instance_visual_scene', [('url', '#' + D['scene'])]) + g.maybe_extra(0.1))
     elif g.chance(0.3):
         body += g.el('scene', [])
     if g.chance(0.2):
